@@ -337,7 +337,10 @@ func cmdCheck(args []string) int {
 	}
 	os.MkdirAll(filepath.Join(verifDir, "evidence"), 0o755)
 	b, _ := json.MarshalIndent(ev, "", " ")
-	os.WriteFile(filepath.Join(verifDir, "evidence", prop+".json"), b, 0o644)
+	if os.Getenv("GOWP_NOEVIDENCE") == "" {
+		// (runs of the seeded-change tool on scratch worktrees must not overwrite the evidence of /repo)
+		os.WriteFile(filepath.Join(verifDir, "evidence", prop+".json"), b, 0o644)
+	}
 	fmt.Printf("%s: %d functions, %d obligations, %d discharged, %d violations, %d known findings, %d broken contracts, %d vacuous; load %.1fs vcgen %.1fs solve %.1fs\n",
 		prop, len(funcs), total, discharged, violations, len(knownHit), broken, vacuous, loadSecs, genSecs, solveSecs)
 	if violations > 0 {
